@@ -13,6 +13,7 @@ import (
 	"github.com/tokenized/specification/dist/golang/protocol"
 	"github.com/tokenized/spynode/internal/handlers"
 	handlerstorage "github.com/tokenized/spynode/internal/storage"
+	"github.com/tokenized/spynode/internal/verifhook"
 	"github.com/tokenized/spynode/pkg/client"
 
 	"github.com/pkg/errors"
@@ -40,6 +41,7 @@ func (node *Node) processUnconfirmedTx(ctx context.Context, tx handlers.TxData) 
 	if !added {
 		return nil // Already saw this tx
 	}
+	verifhook.At(ctx, "node.tx.mempooled")
 
 	// logger.Debug(ctx, "Tx mempool (added %t) (flagged trusted %t) (received trusted %t) : %s",
 	// 	added, trusted, tx.Trusted, hash.String())
